@@ -1,6 +1,7 @@
 //! `vcheck <ID> [--tier quick|thorough] [--replay path]`
 
 use super::bb_graph::*;
+use super::bb_oneshot::*;
 use super::prop::*;
 use super::report::*;
 use super::sim::SimParams;
@@ -187,6 +188,23 @@ fn bb_replays(ctx: &Ctx, report: &mut Report) -> u64 {
             }
         };
         let r = &v["replay"];
+        if r["engine"] == "BB" {
+            match replay_bb(r) {
+                Ok(Some(res)) => {
+                    n += 1;
+                    if let Some(msg) = res.violation {
+                        println!("  replay {} still fails: {}", path.display(), msg);
+                        report.fail(Failure {
+                            message: msg,
+                            signature: res.signature.unwrap_or_default(),
+                            replay: res.replay,
+                        });
+                    }
+                }
+                Ok(None) => {}
+                Err(e) => report.infra_errors.push(e),
+            }
+        }
         if r["engine"] == "BB-large" {
             let c = LargeCase {
                 shape: r["shape"].as_u64().unwrap_or(0) as u8,
@@ -210,7 +228,6 @@ fn bb_replays(ctx: &Ctx, report: &mut Report) -> u64 {
 
 fn c08(ctx: &Ctx) -> i32 {
     let mut report = Report::new(ctx, "exploration");
-    let n = sim_replays(ctx, &mut report, oracle_c08);
     let params = SimParams {
         max_n: ctx.tier.pick(8, 14),
         watch: 0,
@@ -221,14 +238,10 @@ fn c08(ctx: &Ctx) -> i32 {
         sched_len: ctx.tier.pick(120, 300),
     };
     let rule = "generated graph with shared dependencies x requested multiset (duplicates, dependency together with dependent) x schedule (one-shot; some scripts fail, some runs interrupted); exactly-once multiset over the closure on natural success, at-most-once always; non-trivial = some target has >= 2 requesters; distinct = shape classes x (kind, #requests before completion, #after) per shared target";
-    if ctx.replay.is_none() {
-        let (mut part, failures) = run_sim(ctx, params, ctx.tier.pick(4000, 100_000), oracle_c08, rule, 8);
-        part.extra.insert("regression_replays".into(), serde_json::json!(n));
-        report.add(part);
-        for f in failures {
-            report.fail(f);
-        }
-    }
+    sim_check(ctx, &mut report, params, ctx.tier.pick(40_000, 1_000_000), oracle_c08, rule, 8);
+    bb_replays(ctx, &mut report);
+    bb_part(ctx, &mut report, "c08", BbParams { max_n: 8, failures: true, services: true, rendezvous: false }, ctx.tier.pick(32, 400),
+        "real binary, generated graphs, duplicate / both-spelling requests: no target started twice, nothing outside the closure started, exit 0 => exactly one start+finish per closure build; non-trivial = a target with >= 2 requesters", 108);
     report.finish()
 }
 
@@ -267,7 +280,10 @@ fn c01(ctx: &Ctx) -> i32 {
         sched_len: ctx.tier.pick(200, 400),
     };
     let rule = "generated graph x requested subset x watch on/off x failures x schedule with file-change notices; at every start: every dependency (aggregates expanded) finished / started before, and latest delivered word of every direct dependency per kind is Ok; aggregates only say Ok while all their dependencies' latest word is Ok; non-trivial = >= 2 dependencies, or dependency through a non-empty aggregate, or (watch) restarted / a dependency notice between two starts; distinct = shape classes x feature set x number of starts";
-    sim_check(ctx, &mut report, params, ctx.tier.pick(6000, 120_000), oracle_c01, rule, 1);
+    sim_check(ctx, &mut report, params, ctx.tier.pick(60_000, 1_500_000), oracle_c01, rule, 1);
+    bb_replays(ctx, &mut report);
+    bb_part(ctx, &mut report, "c01", BbParams { max_n: 8, failures: false, services: true, rendezvous: false }, ctx.tier.pick(32, 400),
+        "real binary on generated graphs with scripts sleeping 0-40 ms; in the trace every start of T is preceded by the finish line of each build dependency (aggregates expanded) and each service dependency was forked no later than T (kernel start ticks); non-trivial = >= 2 dependencies or a dependency through an aggregate", 101);
     report.finish()
 }
 
@@ -284,7 +300,7 @@ fn c06(ctx: &Ctx) -> i32 {
         sched_len: ctx.tier.pick(250, 500),
     };
     let rule = "watch mode: generated graph x schedule x up to 6 file-change notices (idle, mid-run, in a dependency while the dependent runs, bursts) plus watcher notices caused by producers' outputs; at final quiescence every target not blocked by a failure is up to date w.r.t. the version model, its last execution began after its dependencies' last runs ended and after its last notice; no run invalidated in flight is acknowledged; non-trivial = a notice landed while the target or a dependency/dependent had a run in flight; distinct = shape classes x placement classes x #notices";
-    sim_check(ctx, &mut report, params, ctx.tier.pick(6000, 120_000), oracle_c06, rule, 6);
+    sim_check(ctx, &mut report, params, ctx.tier.pick(60_000, 1_500_000), oracle_c06, rule, 6);
     report.finish()
 }
 
@@ -300,7 +316,10 @@ fn c07(ctx: &Ctx) -> i32 {
         sched_len: ctx.tier.pick(200, 400),
     };
     let rule = "generated graph x failing subset (non-zero exit, cannot launch, fails once) x watch on/off x schedule; one-shot: run returns Err naming an actually failed target; nothing depending on a failing target ever starts; watch: run keeps going, notice after failure re-runs it; non-trivial = the failing target has a dependent and a sibling was running when it failed";
-    sim_check(ctx, &mut report, params, ctx.tier.pick(6000, 120_000), oracle_c07, rule, 7);
+    sim_check(ctx, &mut report, params, ctx.tier.pick(60_000, 1_500_000), oracle_c07, rule, 7);
+    bb_replays(ctx, &mut report);
+    bb_part(ctx, &mut report, "c07", BbParams { max_n: 8, failures: true, services: true, rendezvous: false }, ctx.tier.pick(32, 400),
+        "real binary, generated graphs with failing scripts (exit 1,2,3,126,127,130,255): exit status non-zero, stderr names a target that failed, no target above a failing one is started; non-trivial = a failing target started and has a dependent", 107);
     report.finish()
 }
 
@@ -316,7 +335,10 @@ fn c11(ctx: &Ctx) -> i32 {
         sched_len: ctx.tier.pick(200, 400),
     };
     let rule = "generated graph mixing services/builds/aggregates x requested subset x schedule (one-shot) and x notices restarting services (watch); keep-alive iff a service stands behind a requested root; service started before and alive during dependent builds; never two live instances; stopped at shutdown; non-trivial = service behind an aggregate / requested and depended on / needed by a build / restarted; distinct = shape classes x feature set x #services";
-    sim_check(ctx, &mut report, params, ctx.tier.pick(6000, 120_000), oracle_c11, rule, 11);
+    sim_check(ctx, &mut report, params, ctx.tier.pick(60_000, 1_500_000), oracle_c11, rule, 11);
+    bb_replays(ctx, &mut report);
+    bb_part(ctx, &mut report, "c11", BbParams { max_n: 8, failures: false, services: true, rendezvous: false }, ctx.tier.pick(32, 400),
+        "real binary: services are exec-sleep shells, builds check kill -0 of the services they depend on at start and end; zinoma alive-and-idle after all builds iff a service stands behind a requested root; SIGTERM then exits < 5 s with no marked process left; non-trivial = service behind aggregate / requested and depended on / needed by a build", 111);
     report.finish()
 }
 
@@ -332,11 +354,42 @@ fn c17(ctx: &Ctx) -> i32 {
         sched_len: ctx.tier.pick(200, 400),
     };
     let rule = "one-shot; scripts finish only when nothing else is enabled (antichains stay running); at every message-quiescent point a requested target with all dependencies ready has begun; a later start of such a target is a wait on a non-dependency; non-trivial = >= 2 scripts running concurrently with at least one of them having dependencies; distinct = shape classes x antichain size";
-    sim_check(ctx, &mut report, params, ctx.tier.pick(4000, 80_000), oracle_c17, rule, 17);
+    sim_check(ctx, &mut report, params, ctx.tier.pick(40_000, 1_000_000), oracle_c17, rule, 17);
+    bb_replays(ctx, &mut report);
+    bb_part(ctx, &mut report, "c17", BbParams { max_n: 10, failures: false, services: true, rendezvous: true }, ctx.tier.pick(24, 300),
+        "real binary: a maximal antichain (2..8) of mutually independent build targets whose scripts wait for each other's marker files (20 s deadline): completes iff they all overlap; non-trivial = antichain >= 2 with a member that has dependencies", 117);
     report.finish()
 }
 
 fn c20(_ctx: &Ctx) -> i32 {
     eprintln!("C20 not built yet");
     2
+}
+
+fn bb_part(
+    ctx: &Ctx,
+    report: &mut Report,
+    name: &'static str,
+    params: BbParams,
+    cases: u32,
+    rule: &str,
+    stream: u64,
+) {
+    if ctx.replay.is_some() {
+        return;
+    }
+    let pr = PropRun {
+        ctx,
+        engine: "BB",
+        rule,
+        total_cases: cases,
+        threads: 8.min(ctx.threads),
+        max_shrink_iters: 40,
+        stream,
+    };
+    let (part, failures) = run_prop(&pr, || bb_case(params), |c: &BbCase| eval_bb(c, name));
+    report.add(part);
+    for f in failures {
+        report.fail(f);
+    }
 }
